@@ -139,6 +139,22 @@ fn programs(n: usize) -> Vec<(&'static str, String, f64)> {
     v
 }
 
+// constant-pool / instruction-count scale (the property's N >= 70000): long sequences of small statements
+fn wide_programs(n: usize) -> Vec<(&'static str, String, f64)> {
+    let nn = n as f64;
+    let mut v = Vec::new();
+    v.push(("plain_statement_sequence",
+            format!("let keep = 7; let s = 0; {} keep * 100000000 + s", "s += 1;".repeat(n)),
+            7.0 * 1e8 + nn));
+    v.push(("distinct_number_constants_sequence",
+            format!("let keep = 7; let s = 0; {} keep * 100000000 + s", (0..n).map(|i| format!("s += {}.5 - {}.5 + 1;", 1000 + i, 1000 + i)).collect::<String>()),
+            7.0 * 1e8 + nn));
+    v.push(("distinct_string_constants_sequence",
+            format!("let keep = 7; let s = 0; {} keep * 100000000 + s", (0..n).map(|i| format!("s += 'k{}'.length - {} + 1;", i, 1 + i.to_string().len())).collect::<String>()),
+            7.0 * 1e8 + nn));
+    v
+}
+
 #[test]
 fn verif_side_c10() {
     let seed: u64 = std::env::var("VERIF_SEED").ok().and_then(|s| s.parse().ok()).unwrap_or(0);
@@ -168,6 +184,26 @@ fn verif_side_c10() {
                 fails += 1;
                 let g = format!("{:?}", got);
                 println!("VERIF-SIDE-FAIL obligation=side/C10/{} n={} got={} want={} (or an explicit limit error)", family, n, &g[..g.len().min(300)], want);
+            }
+        }
+    }
+    for &n in &[60000usize, 65530, 65536, 70000] {
+        for (family, src, want) in wide_programs(n) {
+            cases += 1;
+            let got = run(&src);
+            let ok = matches!(&got, Outcome::Num(v) if *v == want);
+            if !ok && fails < 40 {
+                fails += 1;
+                let g = format!("{:?}", got);
+                // signature of the failure, independent of message wording: used to identify known findings
+                let sig = match &got {
+                    Outcome::Err(e) if e.to_lowercase().contains("constant") => format!("refused:constants@n{}65536", if n >= 65536 { ">=" } else { "<" }),
+                    Outcome::Err(e) if e.to_lowercase().contains("register") => "refused:registers".to_string(),
+                    Outcome::Err(_) => "refused:other".to_string(),
+                    Outcome::Num(_) | Outcome::Str(_) | Outcome::Other(_) => "wrong-value".to_string(),
+                    Outcome::Panic(_) => "panic".to_string(),
+                };
+                println!("VERIF-SIDE-FAIL obligation=side/C10/{} sig={} n={} got={} want={} (a sequence of small statements must be accepted)", family, sig, n, &g[..g.len().min(300)], want);
             }
         }
     }
